@@ -2,6 +2,8 @@
 
 // Correspondence harness for the configuration handling (C17). Injected with `go test -overlay`.
 //   cfg parse json=<hex of JSON text>  => ok <canonical config> | err
+//   cfg makeopts json=<hex>            => aliased=0|1   the dial options built for one GCPMultiEndpoint from a caller's option slice
+//                                        (with spare capacity) are still the same after another one was built from that slice
 //   cfg effective json=<hex>           => <canonical effective config> tbl=<method table> det=0|1 mutated=0|1 aliased=0|1 second=same|changed
 // canonical config: P(max,idle,wm,min,fb,ud,uc,strat) | P-   then  M(<hexname>.<hexname>;A(cmd,<hexkey>)) | M(...;A-) ...
 package grpcgcp
@@ -19,6 +21,7 @@ import (
 	"strings"
 	"testing"
 
+	"google.golang.org/grpc"
 	"google.golang.org/grpc/balancer"
 	"google.golang.org/grpc/resolver"
 	"google.golang.org/protobuf/encoding/protojson"
@@ -328,6 +331,26 @@ func TestVerifConfig(t *testing.T) {
 		fmt.Fprintf(w, "cfg roundtrip want=%s json=%s => %s\n", hex.EncodeToString([]byte(cfgCanon(c))), hex.EncodeToString(text), rt)
 		parseLine(text)
 		effLine(text)
+		if rng.Intn(4) == 0 {
+			if c1, err := (&gcpBalancerBuilder{}).ParseConfig(text); err == nil {
+				common := make([]grpc.DialOption, 1, 8) // the caller's slice has room to spare
+				common[0] = grpc.WithUserAgent("verif")
+				o1, e1 := makeOpts(&GCPMultiEndpointOptions{GRPCgcpConfig: c1.(*GCPBalancerConfig).ApiConfig}, common)
+				saved := append([]grpc.DialOption{}, o1...)
+				_, e2 := makeOpts(&GCPMultiEndpointOptions{GRPCgcpConfig: &pb.ApiConfig{ChannelPool: &pb.ChannelPoolConfig{MaxSize: 7, MinSize: 7}}}, common)
+				aliased := 0
+				if e1 != nil || e2 != nil || len(common) != 1 {
+					aliased = 1
+				}
+				for i := range o1 {
+					a, b := reflect.ValueOf(o1[i]), reflect.ValueOf(saved[i])
+					if a.Kind() == reflect.Pointer && b.Kind() == reflect.Pointer && a.Pointer() != b.Pointer() {
+						aliased = 1
+					}
+				}
+				fmt.Fprintf(w, "cfg makeopts json=%s => aliased=%d\n", hex.EncodeToString(text), aliased)
+			}
+		}
 		var tree interface{}
 		if json.Unmarshal(text, &tree) == nil {
 			for k := 0; k < 2; k++ {
